@@ -117,6 +117,23 @@ def check_order_ops(run, rule):
         rhs = "p:%s" % f["params"][0]["n"]
         # the function may touch the four values only through comparisons
         arith = [n for n in ir.walk(f["body"]) if n.get("k") == "Bin" and n.get("op") in ("+", "-", "*", "/", "%", "<<", ">>")]
+        # helpers the operator goes through (a three-way compare(), ...): same restriction, and no silent narrowing of a
+        # 64-bit quantity on the way to the comparison (a difference cut to int changes sign 2^31 seconds apart)
+        from .. import callgraph as _cg
+        cg_ = _cg.CallGraph(facts)
+        helpers = [h_ for h_ in cg_.reachable([f]).values() if h_ is not f and h_.get("cls") == "CDNS::Timestamp"]
+        lossy = []
+        for h_ in [f] + helpers:
+            for node_, inner_, tgt_ in ranges.narrowing_conversions(h_, facts.enums):
+                lossy.append((h_, node_, inner_, tgt_))
+        for h_ in helpers:
+            arith += [n for n in ir.walk(h_["body"]) if n.get("k") == "Bin" and n.get("op") in ("+", "-", "*", "/", "%", "<<", ">>")]
+        if lossy:
+            h_, node_, inner_, tgt_ = lossy[0]
+            run.ob(rule, "%s:no-lossy-conversion" % opname, False, h_, node_.get("l", 0),
+                   "%s converts %s (range [%d, %d]) to %s on the way to the comparison: timestamps far enough apart compare in the wrong "
+                   "order or as equal" % (short(h_["qn"]), show(node_.get("e"))[:60], inner_[0], inner_[1], tgt_))
+            continue
         if arith:
             run.ob(rule, "%s:comparisons-only" % opname, None, f, arith[0].get("l", 0), "operator uses arithmetic; the order abstraction does not apply")
             continue
